@@ -180,7 +180,9 @@ class PairScenario(Scenario):
     def count_supports(self, *cols):
         """Wrap support_function to count evaluations (C19: <= 1000) and to bound the unrolling."""
         counter = {"n": 0}
-        limit = self.support_limit
+        # symbolic runs are unrolled up to 2*support_limit evaluations (an unwinding bound, reported when hit);
+        # concrete replays on the real code only stop at the property's own bound
+        limit = self.support_limit if is_symbolic_run() else 500
 
         def wrap(col):
             orig = col.support_function
@@ -764,4 +766,31 @@ def penetration_jobs(tier, seed, algo):
         if tier == "quick" and si == 2:
             continue
         J.append({"family": "%s:small" % algo, "args": {"a": small_a, "b": small_b, "sweep": sw, "a_pose": 0, "algo": algo}})
+    return J
+
+
+# ---------------------------------------------------------------- coverage-directed scenes
+def branch_scene_jobs(tier, algo_of_module, n_quick=16):
+    """Sweeps through the placements of corpus/branch_scenes.json (found by concrete search for rarely executed
+    lines of the Nesterov simplex projections).  algo_of_module: {"prim": algo, "generic": algo}."""
+    import json
+    import os
+    path = os.path.join(os.path.dirname(os.path.dirname(os.path.abspath(__file__))), "corpus", "branch_scenes.json")
+    if not os.path.exists(path):
+        return []
+    scenes = json.load(open(path))["scenes"]
+    if tier == "quick":
+        scenes = scenes[:n_quick]
+    J = []
+    for k, sc in enumerate(scenes):
+        t = sc["t"]
+        m = max(abs(c) for c in t) or 1.0
+        u = [(1.0 if c > 0 else -1.0) if abs(c) >= 0.5 * m else 0.0 for c in t]
+        sweep = {"kind": "T1", "u": u, "o": t, "R": sc["R"], "range": 0.75}
+        algo = algo_of_module.get(sc["module"])
+        if algo is None:
+            continue
+        J.append({"family": "branch_scene:%s" % algo,
+                  "args": {"a": {"type": "box", "size": sc["sa"]}, "b": {"type": "box", "size": sc["sb"]}, "sweep": sweep,
+                           "a_pose": 0, "swap": bool(sc["swap"]), "algo": algo}})
     return J
